@@ -1014,6 +1014,15 @@ class Interp(object):
         short = c.rsplit("::", 1)[-1]
         if any(is_extra(a) for a in args) and libmodel.is_safe(c) and all(is_extra(a) or isinstance(a, (int, bool)) for a in args):
             return Opaque("extra", ())
+        m_ = re.fullmatch(r"core::num::<impl ([iu])(8|16|32|64|128|size|N)>::count_ones", c)
+        if m_ and len(args) == 1:
+            # population count of a value all of whose bits are known on this path (a byte mask built from the partition's offsets)
+            a0 = args[0]
+            cv = a0.concrete() if isinstance(a0, BV) else (a0 if isinstance(a0, int) and not isinstance(a0, bool) else None)
+            if cv is None:
+                raise Undecided("count_ones of a value with unknown bits")
+            w0 = a0.w if isinstance(a0, BV) else 64
+            return bv_const(bin(cv & ((1 << w0) - 1)).count("1"), 32, False)
         m_ = re.fullmatch(r"core::num::<impl ([iu])(8|16|32|64|128)>::(to|from)_(be|le)_bytes", c)
         if m_ and len(args) == 1:
             # an integer as the array of its bytes and back (bit k of the value = bit k % 8 of byte k / 8, little endian)
